@@ -367,6 +367,7 @@ class Verdict:
         self.sig_counts = {}
         self.inconclusive = []
         self.extra = {}
+        self.sets = {}
         self.notes = []
 
     def add(self, variant, res, tier=None):
@@ -393,7 +394,11 @@ class Verdict:
                 if len(self.samples) < 12:
                     self.samples.append(f"({variant}) {smp}")
             for k, v in s.items():
-                if k.startswith("x_"):
+                if k.startswith("xs_"):
+                    self.sets.setdefault(k[3:], set()).update(v)
+                elif k.startswith("xm_"):
+                    self.extra[k] = max(self.extra.get(k, 0), v)
+                elif k.startswith("x_"):
                     if isinstance(v, (int, float)):
                         self.extra[k] = self.extra.get(k, 0) + v
                     elif isinstance(v, dict):
@@ -437,7 +442,8 @@ def finish(p, v, cfg, scale=None):
     # coverage floors
     missing = []
     for name in cfg.get("floors", []):
-        if v.counters.get(name, 0) == 0 and v.extra.get(name, 0) == 0:
+        if v.counters.get(name, 0) == 0 and v.extra.get(name, 0) == 0 and v.extra.get("x_" + name, 0) == 0 \
+                and len(v.sets.get(name, ())) == 0:
             missing.append(name)
     if missing:
         v.inconclusive.append("coverage floor not reached: " + ", ".join(missing))
@@ -480,7 +486,9 @@ def finish(p, v, cfg, scale=None):
         "notes": v.notes,
     }
     for k, val in v.extra.items():
-        coverage[k[2:] if k.startswith("x_") else k] = val
+        coverage[k.split("_", 1)[1] if k.startswith(("x_", "xm_")) else k] = val
+    for k, val in v.sets.items():
+        coverage["distinct_" + k] = len(val)
     if cfg.get("exhaustive") is not None:
         coverage["exhaustive"] = bool(cfg["exhaustive"])
     if cfg.get("explanation"):
@@ -521,6 +529,7 @@ def finish(p, v, cfg, scale=None):
 # ------------------------------------------------------------------------------------------------
 
 def generic_check(p, prop, tier, seed, cfg):
+    shutil.rmtree(os.path.join(p.replays, prop), ignore_errors=True)
     v = Verdict(prop, tier, seed, cfg["level"])
     plan = cfg["variants"][tier]
     binaries = {}
